@@ -168,7 +168,7 @@ class LendAnalysis(RuleAnalysis):
         return [fact]
 
 
-def check_lend(eng, run):
+def check_lend(eng, run, rule="C10.lend", cancel_arm=True):
     db = eng.db
     n = 0
     for ci in db.classes.values():
@@ -201,12 +201,14 @@ def check_lend(eng, run):
                         if fact == "lent":
                             bad_exits.append((kind if tok is None else f"raise[{tok.split('.')[-1]}]", trace))
                 for label, trace in bad_exits[:1]:
-                    run.finding("C10.lend", fn, stores[0], f"caller-owned buffer stays registered in `{attr}` on exit {label}: the event loop will write the next bytes into a buffer nobody reads (or a released one)", trace)
-                run.ob("C10.lend", f"{fn.short}:{attr}:reclaimed-on-all-exits", not bad_exits)
+                    run.finding(rule, fn, stores[0], f"caller-owned buffer stays registered in `{attr}` on exit {label}: the event loop will write the next bytes into a buffer nobody reads (or a released one)", trace)
+                run.ob(rule, f"{fn.short}:{attr}:reclaimed-on-all-exits", not bad_exits)
+                if not cancel_arm:
+                    continue
                 for aw in an.unprotected[:1]:
-                    run.finding("C10.lend", fn, _line_stmt(fn, aw.lineno), f"await while the caller's buffer is lent through `{attr}` has no cancellation arm: bytes the loop already wrote into it are dropped with the cancelled waiter")
-                run.ob("C10.lend", f"{fn.short}:{attr}:cancellation-arm", not an.unprotected)
-    run.floor("C10.lend instances", n, 1)
+                    run.finding(rule, fn, _line_stmt(fn, aw.lineno), f"await while the caller's buffer is lent through `{attr}` has no cancellation arm: bytes the loop already wrote into it are dropped with the cancelled waiter")
+                run.ob(rule, f"{fn.short}:{attr}:cancellation-arm", not an.unprotected)
+    run.floor(f"{rule} instances", n, 1)
 
 
 # ------------------------------------------------------------------------------------------ C10.ack
